@@ -20,6 +20,8 @@
   pairwise distinct because they live in a hash map).
 -/
 import Golib.Value.CmpLaws
+import Golib.Value.CmpExact
+import Golib.Value.Canon
 
 namespace C20
 open Value
@@ -119,6 +121,80 @@ theorem cmp_flat_laws (a b c : Value) (hna : NoNaN a) (hnb : NoNaN b) (hnc : NoN
   rw [cmpV_flat a b hfa, cmpV_flat b a hfb, cmpV_flat b c hfb, cmpV_flat a c hfa]
   exact ⟨AS_sgn.mp (cmpFlat_AS a b hna hnb), (cmpFlat_Tr a b c hna hnb hnc).1⟩
 
+/-! ### sharper forms -/
+
+/-- antisymmetry needs NaN-freeness of the float *scalars* only (float, double, the sum of a double
+    summary): NaN elements of float arrays are skipped symmetrically -/
+theorem cmp_antisymm_scalar_nan (a b : Value) (hwa : WFV a) (hwb : WFV b) (hna : noSNaN a = true)
+    (hnb : noSNaN b = true) (hal : Aligned a b) : sgn (cmpV a b) = - sgn (cmpV b a) :=
+  AS_sgn.mp (cmpV_AS_s a b hwa hwb hna hnb hal)
+
+/-- exact, for the seventeen flat types (any two of them): the signs reverse **iff** the types
+    differ or neither operand is a NaN float / double / double-summary sum.  This is the complete
+    description of known finding `NaN:cmp-antisym`. -/
+theorem cmp_antisymm_flat_iff (a b : Value) (hfa : isFlat a = true) (hfb : isFlat b = true) :
+    sgn (cmpV a b) = - sgn (cmpV b a) ↔ (tag a ≠ tag b ∨ (noSNaN a = true ∧ noSNaN b = true)) := by
+  rw [cmpV_flat a b hfa, cmpV_flat b a hfb, ← AS_sgn]; exact cmpFlat_AS_iff a b hfa hfb
+
+/-- float arrays are antisymmetric whatever they hold -/
+theorem cmp_antisymm_float_arrays (xs ys : List Nat) :
+    sgn (cmpV (.af xs) (.af ys)) = - sgn (cmpV (.af ys) (.af xs)) :=
+  (cmp_antisymm_flat_iff (.af xs) (.af ys) rfl rfl).mpr (Or.inr ⟨rfl, rfl⟩)
+
+/-- the complete description of known finding `Map.CompareTo:cmp-antisym-different-keys`: two
+    maps of equal size, some key of one missing in the other, all entries under common keys
+    Equal ⇒ `CompareTo` is 1 in **both** directions -/
+theorem map_different_keys_both_one (a b : List (Bytes × Value)) (hwa : WFV (.map a)) (hwb : WFV (.map b))
+    (hl : a.length = b.length) (hk : ∃ k ∈ a.map (·.1), k ∉ b.map (·.1))
+    (hc : ∀ p ∈ a, ∀ w, lookupKV p.1 b = some w → eqV p.2 w = true) :
+    cmpV (.map a) (.map b) = 1 ∧ cmpV (.map b) (.map a) = 1 := map_different_keys a b hwa hwb hl hk hc
+
+theorem imap_different_keys_both_one (a b : List (Int × Value)) (hwa : WFV (.imap a)) (hwb : WFV (.imap b))
+    (hl : a.length = b.length) (hk : ∃ k ∈ a.map (·.1), k ∉ b.map (·.1))
+    (hc : ∀ p ∈ a, ∀ w, lookupKV p.1 b = some w → eqV p.2 w = true) :
+    cmpV (.imap a) (.imap b) = 1 ∧ cmpV (.imap b) (.imap a) = 1 := imap_different_keys a b hwa hwb hl hk hc
+
+/-- values that hold no float anywhere satisfy `NoNaN`: for them every `_partial` theorem above
+    holds with the alignment hypothesis alone (maps) or with none (no maps) -/
+theorem floatfree_is_nan_free (v : Value) (h : floatFree v = true) : NoNaN v := noNaN_of_floatFree v h
+
+theorem cmp_trans_floatfree (a b c : Value) (hwa : WFV a) (hwb : WFV b) (hwc : WFV c)
+    (hfa : floatFree a = true) (hfb : floatFree b = true) (hfc : floatFree c = true)
+    (hab : Aligned a b) (hbc : Aligned b c) (hac : Aligned a c) (h1 : cmpV a b ≤ 0) (h2 : cmpV b c ≤ 0) :
+    cmpV a c ≤ 0 :=
+  (cmpV_Tr a b c hwa hwb hwc (noNaN_of_floatFree a hfa) (noNaN_of_floatFree b hfb) (noNaN_of_floatFree c hfc)
+    hab hbc hac).1 h1 h2
+
+/-! ### what `Equals` decides (link to C02) -/
+
+/-- on the types whose `Equals` is structural (null, bool, the integer types, text, text hash, blob,
+    IPv4, int / long / text arrays, lists of those) `Equals` is equality of the values … -/
+theorem eq_iff_same_value (a b : Value) (hr : rigid a = true) : eqV a b = true ↔ a = b :=
+  eqV_iff_eq_of_rigid a b hr
+
+/-- … i.e. equality of the encodings: `a.Equals(b)` decides "same bytes on the wire" -/
+theorem eq_iff_same_bytes (a b : Value) (ha : WFV a) (hb : WFV b) (hr : rigid a = true) :
+    eqV a b = true ↔ encV a = encV b := eqV_iff_enc_of_rigid a b ha hb hr
+
+/-- in general (floats: −0 = +0; summaries: min / max ignored) `Equals` is equality of canonical
+    forms, hence of *their* encodings — for all well-formed NaN-free values without maps -/
+theorem eq_iff_canonical_bytes (a b : Value) (hwa : WFV a) (hwb : WFV b) (hna : NoNaN a) (hnb : NoNaN b)
+    (hm : mapFree a = true) : eqV a b = true ↔ encV (canon a) = encV (canon b) :=
+  eqV_iff_canon_enc a b hwa hwb hna hnb hm
+
+/-- one direction holds for every well-formed NaN-free value, maps included: same bytes ⇒ Equal -/
+theorem same_bytes_are_equal (a b : Value) (ha : WFV a) (hb : WFV b) (hn : NoNaN a) (h : encV a = encV b) :
+    eqV a b = true := eqV_of_enc_eq a b ha hb hn h
+
+/-- the converse fails exactly where the canonical form is needed: −0 vs +0, a summary's min, and
+    the insertion order of a map -/
+theorem equal_with_different_bytes :
+    (eqV (.f32 0) (.f32 2147483648) = true ∧ encV (.f32 0) ≠ encV (.f32 2147483648)) ∧
+    (eqV (.lsum 1 1 0 0) (.lsum 1 1 5 0) = true ∧ encV (.lsum 1 1 0 0) ≠ encV (.lsum 1 1 5 0)) ∧
+    (eqV (.map [([1], .null), ([2], .null)]) (.map [([2], .null), ([1], .null)]) = true ∧
+      encV (.map [([1], .null), ([2], .null)]) ≠ encV (.map [([2], .null), ([1], .null)])) := by
+  decide +kernel
+
 /-- summaries after the D07 repair: equal sums are ordered by count, consistently -/
 theorem summary_by_count (s c c' mn mx mn' mx' : Int) (h : c < c') :
     cmpV (.lsum s c mn mx) (.lsum s c' mn' mx') = 1 ∧ cmpV (.lsum s c' mn' mx') (.lsum s c mn mx) = -1 := by
@@ -181,6 +257,9 @@ example : Aligned (.map [([97], .dec 1), ([98], .imap [(5, .null)])]) (.map [([9
   unfold Aligned; decide +kernel
 example : Aligned (.map [([97], .dec 1)]) (.map [([97], .dec 1), ([98], .null)]) := by unfold Aligned; decide +kernel  -- sizes differ: no constraint
 example : mapFree (.list [.list [.dec 1, .af []], .text [1]]) = true := by decide +kernel
+example : rigid (.list [.text [1], .ai [1, 2], .list [.null]]) = true := by decide +kernel
+example : canon (.list [.f32 2147483648, .lsum 1 2 3 4]) = .list [.f32 0, .lsum 1 2 0 0] := by rfl
+example : floatFree (.map [([1], .lsum 1 1 1 1)]) = true ∧ noSNaN (.af [nan32w]) = true := by decide +kernel
 example : cmpV (.bool true) (.dec 0) = -10 ∧ cmpV (.dec 0) (.bool true) = 10 := by decide +kernel       -- D05
 example : cmpV .null (.imap []) = -81 := by decide +kernel                                              -- D05 (NullValue)
 example : cmpV (.lsum 5 1 0 0) (.lsum 5 2 0 0) = 1 ∧ cmpV (.lsum 5 2 0 0) (.lsum 5 1 0 0) = -1 := by decide +kernel  -- D07
